@@ -256,11 +256,24 @@ func ReduceSaturated() *Set {
 		s.Intercepts[e.name] = func(ex *absint.Exec, c *absint.CallCtx) (absint.Val, bool) {
 			// shapes: (dst, src) flag; in place (l) flag; by value (src) (limbs, flag)
 			var dst, src *absint.Ptr
+			var words []*sym.Term
 			byValue := false
 			switch {
 			case len(c.Args) == 2:
 				dst, src = ptrArg(ex, c, 0), ptrArg(ex, c, 1)
 			case len(c.Args) == 1:
+				if ag, isAgg := c.St.Resolve(c.Args[0]).(*absint.Agg); isAgg && len(ag.Elems) == 4 {
+					// the limbs handed over by value
+					for _, e := range ag.Elems {
+						t, isT := c.St.Resolve(e).(*sym.Term)
+						if !isT {
+							return nil, false
+						}
+						words = append(words, c.St.Simplify(t))
+					}
+					byValue = true
+					break
+				}
 				src = ptrArg(ex, c, 0)
 				if c.Fn != nil && c.Fn.Signature.Results().Len() == 2 {
 					byValue = true
@@ -268,10 +281,16 @@ func ReduceSaturated() *Set {
 					dst = src
 				}
 			}
-			if src == nil || (dst == nil && !byValue) {
+			if words == nil {
+				if src == nil || (dst == nil && !byValue) {
+					return nil, false
+				}
+				words = ex.ReadWords(c.St, src, 4)
+			}
+			if byValue && (c.Fn == nil || c.Fn.Signature.Results().Len() != 2) {
 				return nil, false
 			}
-			v, ok := fromLimbs(ex.ReadWords(c.St, src, 4))
+			v, ok := fromLimbs(words)
 			if !ok {
 				return nil, false
 			}
